@@ -5,6 +5,7 @@ import (
 	"time"
 
 	"github.com/0xReLogic/Helios/internal/circuitbreaker"
+	"github.com/0xReLogic/Helios/internal/config"
 	"github.com/0xReLogic/Helios/internal/verifrt"
 )
 
@@ -40,4 +41,39 @@ func VerifC08Notify(k int) {
 	st := lb.circuitBreaker.State()
 	verifrt.Assert(st == circuitbreaker.StateClosed || st == circuitbreaker.StateOpen || st == circuitbreaker.StateHalfOpen, "breaker state is readable after the sequence")
 	_ = http.StatusOK
+}
+
+// VerifC08Config: for EVERY breaker section that the real configuration
+// validation accepts (thresholds 1..3, max_requests 0 = unset .. 3), the
+// breaker as the balancer builds it (real setupCircuitBreaker, with its own
+// defaulting) trips after failure_threshold failures and, once requests succeed
+// again, is closed after the timeout plus a bounded number of successes - it
+// never locks traffic out.
+func VerifC08Config() {
+	cfg := &config.Config{}
+	c := &cfg.CircuitBreaker
+	c.Enabled = true
+	c.FailureThreshold = verifrt.IntRange("failure_threshold", 1, 2)
+	c.SuccessThreshold = verifrt.IntRange("success_threshold", 1, 3)
+	c.MaxRequests = verifrt.IntRange("max_requests", 0, 3)
+	c.IntervalSeconds, c.TimeoutSeconds = 60, 30
+	verifrt.Assume(config.VerifBreakerAccepted(c.FailureThreshold, c.SuccessThreshold, c.MaxRequests))
+	lb, _ := verifFullLB(0, 1, 0)
+	lb.setupCircuitBreaker(cfg)
+	b := lb.circuitBreaker
+	for i := 0; i < 2; i++ {
+		if i < c.FailureThreshold {
+			b.Execute(func() error { return verifProbeErr })
+		}
+	}
+	verifrt.Assert(b.State() == circuitbreaker.StateOpen, "failure_threshold failures open the breaker the balancer built")
+	verifrt.Advance(31 * time.Second)
+	admitted := false
+	for i := 0; i < 8; i++ {
+		if i < 2*c.SuccessThreshold+c.MaxRequests+1 {
+			admitted = false
+			b.Execute(func() error { admitted = true; return nil })
+		}
+	}
+	verifrt.Assert(b.State() == circuitbreaker.StateClosed && admitted, "every accepted breaker configuration recovers: closed and admitting after the timeout plus a bounded number of successes")
 }
